@@ -14,8 +14,8 @@ def clean():
     sh("git -C /repo checkout -- .")
     assert sh("git -C /repo status --porcelain").stdout.strip() == "", "repo not clean"
 
-def demo(path):
-    r = sh("cd /tmp && PYTHONPATH=/repo %s %s" % (PY, path), timeout=600)
+def demo(path, repo="/repo"):
+    r = sh("cd /tmp && PYTHONPATH=%s %s %s" % (repo, PY, path), timeout=600)
     return r.returncode, (r.stdout + r.stderr)[-1500:]
 
 def add(prop, name, patch, demo_py, needs=""):
@@ -26,34 +26,57 @@ def add(prop, name, patch, demo_py, needs=""):
     # the author's demo pins the scratch worktree path; here it runs against /repo with the patch applied
     src = [l for l in src if not ("funsor.__file__" in l and ("assert" in l or "startswith" in l))]
     open(os.path.join(d, "demo.py"), "w").write("".join(src))
-    clean()
-    rc0, out0 = demo(os.path.join(d, "demo.py"))
-    a = sh("git -C /repo apply %s" % os.path.join(d, "patch.diff"))
-    assert a.returncode == 0, a.stderr
-    try:
-        rc1, out1 = demo(os.path.join(d, "demo.py"))
-    finally:
+    if "--scratch" in sys.argv:
+        wt = "/tmp/seeded_wt"
+        sh("git -C /repo worktree remove --force %s" % wt)
+        sh("git -C /repo worktree add --detach %s HEAD -f" % wt)
+        rc0, out0 = demo(os.path.join(d, "demo.py"), wt)
+        a = sh("git -C %s apply %s" % (wt, os.path.join(d, "patch.diff")))
+        assert a.returncode == 0, a.stderr
+        rc1, out1 = demo(os.path.join(d, "demo.py"), wt)
+        sh("git -C /repo worktree remove --force %s" % wt)
+    else:
         clean()
+        rc0, out0 = demo(os.path.join(d, "demo.py"))
+        a = sh("git -C /repo apply %s" % os.path.join(d, "patch.diff"))
+        assert a.returncode == 0, a.stderr
+        try:
+            rc1, out1 = demo(os.path.join(d, "demo.py"))
+        finally:
+            clean()
     meta = dict(property=prop, needs=needs, demo_exit_without_change=rc0, demo_exit_with_change=rc1, demo_output_with_change=out1[-600:],
                 ran=["demo.py with and without the patch on /repo (PYTHONPATH=/repo)", "full test suite with the patch in the author's scratch worktree: same pass count as clean (reported by the author, spot-checked)"], checks={})
     json.dump(meta, open(os.path.join(d, "meta.json"), "w"), indent=1)
     print(name, "demo without:", rc0, "with:", rc1)
 
-def run(names, rtc=False):
+def run(names, rtc=False, scratch=False):
     for name in names or sorted(os.listdir(SEED)):
         d = os.path.join(SEED, name)
         if not os.path.exists(os.path.join(d, "meta.json")):
             continue
         meta = json.load(open(os.path.join(d, "meta.json")))
-        clean()
-        a = sh("git -C /repo apply %s" % os.path.join(d, "patch.diff"))
+        if scratch:
+            # same procedure on a scratch worktree of /repo's HEAD (so that /repo stays usable while this runs); the checks
+            # read the repository through VERIF_REPO and write evidence / replays to a scratch directory
+            wt = "/tmp/seeded_wt"
+            sh("git -C /repo worktree remove --force %s" % wt)
+            sh("git -C /repo worktree add --detach %s HEAD -f" % wt)
+            a = sh("git -C %s apply %s" % (wt, os.path.join(d, "patch.diff")))
+            env = "VERIF_REPO=%s VERIF_EVIDENCE_DIR=/tmp/seeded_out/evidence VERIF_REPLAY_DIR=/tmp/seeded_out/replays " % wt
+        else:
+            clean()
+            a = sh("git -C /repo apply %s" % os.path.join(d, "patch.diff"))
+            env = ""
         if a.returncode != 0:
             print(name, "PATCH DOES NOT APPLY", a.stderr[:200]); continue
         t = time.time()
         try:
-            r = sh("cd %s && ./check.py %s %s" % (HERE, meta["property"], "" if rtc else "--no-rtc"), timeout=3600)
+            r = sh("cd %s && %s./check.py %s %s" % (HERE, env, meta["property"], "" if rtc else "--no-rtc"), timeout=3600)
         finally:
-            clean()
+            if scratch:
+                sh("git -C /repo worktree remove --force %s" % wt)
+            else:
+                clean()
         lines = [l for l in r.stdout.splitlines() if l.startswith(("VIOLATION", "UNDECIDED", "SELFTEST", "CHECKER"))]
         verdict = {0: "MISSED (exit 0)", 1: "DETECTED (exit 1)", 2: "UNDECIDED (exit 2)", 3: "CHECKER-ERROR (exit 3)"}.get(r.returncode, str(r.returncode))
         meta["checks"]["rtc" if rtc else "proof-only"] = dict(verdict=verdict, wall_s=round(time.time() - t, 1), lines=[l[:300] for l in lines[:6]])
@@ -85,4 +108,4 @@ if __name__ == "__main__":
         add(sys.argv[2], sys.argv[3], sys.argv[4], sys.argv[5], needs)
     else:
         rtc = "--rtc" in sys.argv
-        run([a for a in sys.argv[2:] if not a.startswith("--")], rtc)
+        run([a for a in sys.argv[2:] if not a.startswith("--")], rtc, scratch="--scratch" in sys.argv)
